@@ -437,6 +437,28 @@ func evalPlanner(c PCase) (problems []string, n int) {
 		}
 	}
 	changes, err := d.Diff.SchemaDiff(from, to, schema.DiffNormalized())
+	if c.Kind == "drop_cycle_selfref" {
+		// two tables that reference each other are dropped, one of them references itself too.
+		intT := func() *schema.Column { return &schema.Column{Name: "x", Type: &schema.ColumnType{Type: d.Int()}} }
+		_ = intT
+		users := schema.NewTable("users")
+		works := schema.NewTable("workplaces")
+		uid := &schema.Column{Name: "id", Type: &schema.ColumnType{Type: d.Int()}}
+		uw := &schema.Column{Name: "workplace_id", Type: &schema.ColumnType{Type: d.Int(), Null: true}}
+		us := &schema.Column{Name: "spouse_id", Type: &schema.ColumnType{Type: d.Int(), Null: true}}
+		wid := &schema.Column{Name: "id", Type: &schema.ColumnType{Type: d.Int()}}
+		wo := &schema.Column{Name: "owner_id", Type: &schema.ColumnType{Type: d.Int(), Null: true}}
+		users.AddColumns(uid, uw, us).SetPrimaryKey(schema.NewPrimaryKey(uid))
+		works.AddColumns(wid, wo).SetPrimaryKey(schema.NewPrimaryKey(wid))
+		users.AddForeignKeys(
+			schema.NewForeignKey("workplace").AddColumns(uw).SetRefTable(works).AddRefColumns(wid),
+			schema.NewForeignKey("spouse").AddColumns(us).SetRefTable(users).AddRefColumns(uid),
+		)
+		works.AddForeignKeys(schema.NewForeignKey("owner").AddColumns(wo).SetRefTable(users).AddRefColumns(uid))
+		sc := schema.New(d.Schema).AddTables(users, works)
+		schema.NewRealm(sc)
+		changes, err = []schema.Change{&schema.DropTable{T: users}, &schema.DropTable{T: works}}, nil
+	}
 	if c.Kind == "unnamed" {
 		// constraints added without a name (the database generates one): the change list is written
 		// by hand, as a program using the planner directly would.
@@ -545,6 +567,20 @@ func evalPlanner(c PCase) (problems []string, n int) {
 			}
 		}
 	}
+	// every foreign key of the dropped tables comes back with the reverse statements.
+	if c.Kind == "drop_cycle_selfref" && plan.Reversible {
+		var all []string
+		for _, ch := range plan.Changes {
+			rs, _ := ch.ReverseStmts()
+			all = append(all, rs...)
+		}
+		text := strings.Join(all, ";\n")
+		for _, fk := range []string{"workplace", "spouse", "owner"} {
+			if !strings.Contains(text, "CONSTRAINT `"+fk+"`") && !strings.Contains(text, "CONSTRAINT \""+fk+"\"") {
+				bad("the plan is reported reversible, yet no reverse statement restores foreign key %s:\n%s", fk, text)
+			}
+		}
+	}
 	// a reverse statement names what it drops (a constraint the database named cannot be undone by text).
 	for _, ch := range plan.Changes {
 		rs, _ := ch.ReverseStmts()
@@ -625,6 +661,14 @@ func minus(a, b []string) []string {
 
 // classifyPlanner names the known finding a failing planner-level case belongs to ("" = none).
 func classifyPlanner(c PCase, problems []string) string {
+	if c.Kind == "drop_cycle_selfref" {
+		for _, p := range problems {
+			if !strings.Contains(p, "no reverse statement restores foreign key spouse") {
+				return ""
+			}
+		}
+		return "self-referencing-foreign-key-of-a-table-dropped-in-a-cycle-is-not-restored"
+	}
 	// MySQL drops an index implicitly with the column it covers and the planner leaves the DROP INDEX
 	// out; the reverse then re-adds the column but not the index.
 	if c.Dialect == "postgres" || len(problems) == 0 {
@@ -723,6 +767,7 @@ func plannerCases(tier string) []PCase {
 		}
 		for _, ind := range []string{"", "  "} {
 			cs = append(cs, PCase{dn, "create_all", nil, ind}, PCase{dn, "drop_all", nil, ind})
+			cs = append(cs, PCase{dn, "drop_cycle_selfref", nil, ind})
 			for _, u := range [][]string{{"index"}, {"unique"}, {"fk"}, {"check"}, {"index", "fk"}, {"column", "index"}, {"fk", "column"}, {"column", "check", "unique"}} {
 				cs = append(cs, PCase{dn, "unnamed", u, ind})
 			}
